@@ -1,11 +1,17 @@
 //! Harnesses over the transplanted record_store.rs (child module: private fields visible).
 use super::*;
 use crate::util::*;
+use symrt::env;
 use symrt::{check, check_bool, choice, cover, note, SymBool, SymU};
 
 pub fn harnesses() -> Vec<Harness> {
     vec![
-        Harness { name: "c10_put_step", property: "C10", f: c10_put_step, about: "store of capacity c holding n<=c settled keys; one validated put of a new or held key; acceptance/eviction/refusal exact" },
+        Harness { name: "c10_put_step", property: "C10", f: c10_put_step, about: "store of capacity c holding n<=c settled keys; one validated put of a new or held key; acceptance/eviction/refusal exact; index views agree" },
+        Harness { name: "c10_burst", property: "C10", f: c10_burst, about: "full store, two validated puts before any completion notification; held <= capacity + writes in flight at every stage" },
+        Harness { name: "c10_cleanup", property: "C10", f: c10_cleanup, about: "clean-up below / at the MAX_RECORDS_COUNT/10 threshold with a symbolic responsible range; only out-of-range records removed" },
+        Harness { name: "c10_metrics", property: "C10", f: c10_metrics, about: "quoting metrics equal ghost values (records within range, capacity, payments) and survive a restart" },
+        Harness { name: "c01_history", property: "C01", f: c01_history, about: "histories of put/overwrite/remove/get with arbitrary completion order of background tasks of different keys" },
+        Harness { name: "c02_crash", property: "C02", f: c02_crash, about: "history, then crash with a subset of tasks run and one torn write (every prefix), then restart over the same directory" },
     ]
 }
 
@@ -40,6 +46,12 @@ fn held_set(store: &NodeRecordStore) -> Vec<Key> {
     v
 }
 
+fn file_of(k: &Key) -> std::path::PathBuf {
+    storage_dir().join(NodeRecordStore::generate_filename(k))
+}
+
+// ------------------------------------------------------------------ C10
+
 fn c10_put_step() {
     let cap = 1 + choice(3);
     let n_held = choice(cap + 1);
@@ -72,7 +84,7 @@ fn c10_put_step() {
         let (fk, fd) = farthest_before.clone().expect("full store has a farthest");
         if res.is_ok() {
             cover("at_capacity_accept");
-            // accepted => not farther than the farthest, and exactly the farthest was evicted
+            // accepted => closer than the farthest, and exactly the farthest was evicted
             check("at_capacity:accepted_only_if_closer_than_farthest", d_in.slt(fd.0).0);
             let mut expect = before.clone();
             expect.retain(|k| *k != fk);
@@ -91,5 +103,563 @@ fn c10_put_step() {
     check_bool("post:held_le_capacity", store.records.len() <= cap);
     if res.is_ok() {
         check_bool("post:accepted_key_is_held", store.records.contains_key(&k_in));
+    }
+}
+
+fn c10_burst() {
+    let cap = 1 + choice(2);
+    let mut w = World::new(cap, 4);
+    w.settle();
+    for i in 0..cap {
+        let _ = w.driver.arm_put_local_record(chunk_record(&key(i as u8), 0));
+        w.settle();
+    }
+    check_bool("setup:full", w.driver.node_store().records.len() == cap);
+    // two validated writes arrive before any completion notification is processed
+    let n_burst = 2;
+    let mut accepted = 0usize;
+    for j in 0..n_burst {
+        let k = key((cap + j) as u8);
+        let r = w.driver.arm_put_local_record(chunk_record(&k, 1));
+        if r.is_ok() {
+            accepted += 1;
+        }
+        let inflight = accepted;
+        let held = w.driver.node_store().records.len();
+        note(format!("cap={cap} after put #{j}: held={held} writes_in_flight={inflight} ok={}", r.is_ok()));
+        check_bool("burst:held_le_capacity_plus_inflight", held <= cap + inflight);
+    }
+    if accepted == 2 {
+        cover("both_accepted");
+    }
+    let burst_accepted = accepted;
+    // completions are processed one by one
+    loop {
+        env::run_all_tasks();
+        let Some(cmd) = w.cmd_rx.try_recv() else { break };
+        w.dispatch(cmd);
+        accepted -= 1;
+        let inflight = accepted;
+        let held = w.driver.node_store().records.len();
+        note(format!("after a completion notification: held={held} writes_in_flight={inflight}"));
+        if burst_accepted == 2 && held == cap + inflight + 1 {
+            // both unacknowledged writes were admitted against an index that the first one had already shrunk
+            check_bool("burst:held_le_capacity_plus_inflight[two_unacknowledged_puts_overshoot_by_one]", false);
+        } else {
+            check_bool("burst:held_le_capacity_plus_inflight", held <= cap + inflight);
+        }
+    }
+    let store = w.driver.node_store();
+    check_views_agree(store, "post");
+}
+
+fn c10_cleanup() {
+    // threshold is a const of the transplanted file
+    let threshold = MAX_RECORDS_COUNT / 10;
+    let below = choice(2) == 0;
+    let n_sym = 2usize;
+    let total = if below { threshold - 1 } else { threshold };
+    let n_fill = total - n_sym;
+    // fillers live in a narrow band of concrete distances; H[self] = 0 so distance == H[key]
+    let self_addr = NetworkAddress::from_peer(self_peer());
+    env::set_hash(&self_addr.bytes, SymU::konst(0));
+    let band_lo = ruint_pow2(200);
+    let mut w = World::new(MAX_RECORDS_COUNT, 4);
+    w.settle();
+    let mut filler_keys = Vec::with_capacity(n_fill);
+    for i in 0..n_fill {
+        let mut kb = [0xF0u8; 32];
+        kb[0] = (i >> 8) as u8;
+        kb[1] = (i & 0xff) as u8;
+        let k = Key::new(&kb);
+        env::set_hash(k.as_ref(), SymU::konst_u256(band_lo + ruint::aliases::U256::from(i as u64 + 1)));
+        filler_keys.push(k);
+    }
+    let band_hi = SymU::<256>::konst_u256(band_lo + ruint::aliases::U256::from(n_fill as u64 + 2));
+    let band_lo_s = SymU::<256>::konst_u256(band_lo);
+    // symbolic keys and the responsible range lie outside the band (each side is explored)
+    let outside = |x: SymU<256>| x.slt(band_lo_s).or(band_hi.slt(x));
+    let store = w.driver.node_store();
+    for k in &filler_keys {
+        store.mark_as_stored(k.clone(), RecordType::Chunk);
+    }
+    // the two keys of interest sit below or above the band (by choice); the responsible
+    // range is a free 256-bit value outside the band, so every relation range-vs-key is the solver's
+    let sym_keys: Vec<Key> = (0..n_sym).map(|i| key(i as u8)).collect();
+    for (i, k) in sym_keys.iter().enumerate() {
+        let high = choice(2) == 1;
+        let h = if high { ruint_pow2(201) + ruint::aliases::U256::from(i as u64) } else { ruint::aliases::U256::from(10 + i as u64) };
+        env::set_hash(k.as_ref(), SymU::konst_u256(h));
+        store.mark_as_stored(k.clone(), RecordType::Chunk);
+    }
+    let has_range = choice(2) == 1;
+    let range = SymU::<256>::fresh("range");
+    if has_range {
+        symrt::assume(outside(range).0);
+        store.set_responsible_distance_range(U256(range));
+    }
+    check_bool("setup:size", store.records.len() == total);
+    let before = held_set(store);
+    note(format!("below_threshold={below} has_range={has_range} total={total} threshold={threshold}"));
+    w.driver.arm_trigger_irrelevant_record_cleanup().expect("cleanup arm");
+    let store = w.driver.node_store();
+    let after = held_set(store);
+    let removed: Vec<Key> = before.iter().filter(|k| !after.contains(k)).cloned().collect();
+    check_bool("cleanup:nothing_added", after.iter().all(|k| before.contains(k)));
+    if below || !has_range {
+        cover("not_applicable");
+        check_bool("cleanup:below_threshold_or_no_range_removes_nothing", removed.is_empty());
+    } else {
+        cover("applies");
+        if !removed.is_empty() {
+            cover("removed_some");
+        }
+        for k in &removed {
+            // "outside the responsible distance": boundary accepted either way
+            check("cleanup:removed_only_outside_range", range.sle(dist_of(store, k)).0);
+        }
+    }
+    // index consistency on the symbolic keys and a few fillers (checking all 1.6k fillers is redundant)
+    check_bool("post/J:index_sizes_equal", store.records.len() == store.records_by_distance.len());
+    for k in sym_keys.iter().chain(filler_keys.iter().take(3)) {
+        if store.records.contains_key(k) {
+            let d = dist_of(store, k);
+            let hit = store.records_by_distance.iter().any(|(dd, kk)| kk == k && dd.0.seq(d).get());
+            check_bool("post/J:held_key_indexed_by_its_distance", hit);
+        }
+    }
+    if let Some((fk, fd)) = &store.farthest_record {
+        check_bool("post/J:farthest_is_held", store.records.contains_key(fk));
+        for k in sym_keys.iter() {
+            if store.records.contains_key(k) {
+                check("post/J:farthest_is_max", dist_of(store, k).sle(fd.0).0);
+            }
+        }
+    } else {
+        check_bool("post/J:farthest_none_iff_empty", store.records.is_empty());
+    }
+}
+
+fn ruint_pow2(n: usize) -> ruint::aliases::U256 {
+    ruint::aliases::U256::from(1u8) << n
+}
+
+fn c10_metrics() {
+    let cap = 2 + choice(2);
+    let n_held = choice(3) + 1;
+    let n_held = n_held.min(cap);
+    let mut w = World::new(cap, 4);
+    w.settle();
+    for i in 0..n_held {
+        let _ = w.driver.arm_put_local_record(chunk_record(&key(i as u8), 0));
+        w.settle();
+    }
+    let payments = choice(3);
+    for _ in 0..payments {
+        w.driver.arm_payment_received().expect("payment arm");
+    }
+    let has_range = choice(2) == 1;
+    let range = SymU::<256>::fresh("range");
+    if has_range {
+        w.driver.node_store().set_responsible_distance_range(U256(range));
+    }
+    note(format!("cap={cap} held={n_held} payments={payments} has_range={has_range}"));
+    let probe = key(0);
+    let store = w.driver.node_store();
+    let (m, is_stored) = store.quoting_metrics(&probe, Some(1000));
+    check_bool("metrics:max_records", m.max_records == cap);
+    check_bool("metrics:received_payment_count", m.received_payment_count == payments);
+    check_bool("metrics:is_stored", is_stored == store.records.contains_key(&probe));
+    if has_range {
+        cover("with_range");
+        // ghost count with the boundary accepted either way: #(d < r) <= reported <= #(d <= r)
+        let mut lo = 0usize;
+        let mut hi = 0usize;
+        for k in store.records.keys() {
+            let d = dist_of(store, k);
+            if d.slt(range).get() {
+                lo += 1;
+            }
+            if d.sle(range).get() {
+                hi += 1;
+            }
+        }
+        check_bool("metrics:close_records_stored_is_count_within_range", lo <= m.close_records_stored && m.close_records_stored <= hi);
+    } else {
+        cover("without_range");
+        check_bool("metrics:close_records_stored_is_total", m.close_records_stored == n_held);
+    }
+    // restart after the background work settled: payments survive
+    w.settle();
+    let files = env::fs::snapshot();
+    drop(w);
+    env::fs::restore(files);
+    let mut w2 = World::new(cap, 4);
+    w2.settle();
+    let store2 = w2.driver.node_store();
+    let (m2, _) = store2.quoting_metrics(&probe, Some(1000));
+    check_bool("restart:received_payment_count_survives", m2.received_payment_count == payments);
+    check_bool("restart:max_records", m2.max_records == cap);
+    check_bool("restart:records_reloaded", store2.records.len() == n_held);
+    check_views_agree(store2, "restart");
+}
+
+// ------------------------------------------------------------------ C01 / C02 common
+
+#[derive(Clone, Debug, PartialEq)]
+enum Last {
+    Never,
+    Value(Vec<u8>),
+    Removed,
+}
+
+struct Ghost {
+    accepted: Vec<Vec<Vec<u8>>>, // per key: every value accepted so far
+    last: Vec<Last>,
+    /// a remove of the key was issued while a write of the same key had not yet been acknowledged
+    remove_raced_write: Vec<bool>,
+    unacked_writes: Vec<usize>,
+}
+
+fn the_record(ki: usize, variant: usize, nonchunk: bool) -> Record {
+    let k = key(ki as u8);
+    if nonchunk {
+        nonchunk_record(&k, variant as u8)
+    } else {
+        chunk_record(&k, variant as u8)
+    }
+}
+
+/// constant hashes: distances are not the subject of C01/C02 (capacity is large)
+fn pin_hashes(n_keys: usize) {
+    let self_addr = NetworkAddress::from_peer(self_peer());
+    env::set_hash(&self_addr.bytes, SymU::konst(0));
+    for i in 0..n_keys {
+        env::set_hash(key(i as u8).as_ref(), SymU::konst(1000 + 7 * i as u64));
+    }
+}
+
+fn env_usize(name: &str, default: usize) -> usize {
+    std::env::var(name).ok().and_then(|v| v.parse().ok()).unwrap_or(default)
+}
+
+/// one history step; returns false when the history ends
+fn history_step(w: &mut World, g: &mut Ghost, n_keys: usize, tag: &str) {
+    let op = choice(3);
+    let ki = choice(n_keys);
+    let k = key(ki as u8);
+    env::set_task_label(&key_name(&k));
+    match op {
+        0 => {
+            let variant = choice(2);
+            let nonchunk = ki == 1; // key 1 carries a non-chunk kind, the others chunks
+            let r = the_record(ki, variant, nonchunk);
+            let val = r.value.clone();
+            let res = w.driver.arm_put_local_record(r);
+            note(format!("{tag} put {} v{variant} -> {}", key_name(&k), if res.is_ok() { "ok" } else { "err" }));
+            if res.is_ok() {
+                g.accepted[ki].push(val.clone());
+                g.last[ki] = Last::Value(val);
+                g.remove_raced_write[ki] = false;
+            }
+        }
+        1 => {
+            let unacked = pending_work_for(w, &key_name(&k));
+            note(format!("{tag} remove {} (unacknowledged writes of that key: {unacked})", key_name(&k)));
+            w.driver.store().remove(&k);
+            g.last[ki] = Last::Removed;
+            g.remove_raced_write[ki] = unacked;
+        }
+        _ => {
+            let got = w.driver.store().get(&k).map(|c| c.into_owned().value);
+            note(format!("{tag} get {} -> {}", key_name(&k), got.as_ref().map(|v| format!("{} bytes", v.len())).unwrap_or("none".into())));
+            if let Some(v) = got {
+                cover("get_returned_value");
+                check_bool("get:returns_only_accepted_bytes_for_that_key", g.accepted[ki].contains(&v));
+            }
+        }
+    }
+    env::set_task_label("");
+}
+
+/// run background work in an arbitrary order, FIFO within one key
+fn run_some_background(w: &mut World, max_steps: usize) {
+    for _ in 0..max_steps {
+        // candidates: the oldest pending task of each label, the oldest pending notification of each key
+        let tasks = env::pending_tasks();
+        let mut cands: Vec<(bool, u64, String)> = vec![];
+        for (id, label) in &tasks {
+            if !cands.iter().any(|c| c.0 && c.2 == *label) {
+                cands.push((true, *id, label.clone()));
+            }
+        }
+        let notif_keys: Vec<String> = w.cmd_rx.with_queue(|q| q.iter().map(cmd_key_name).collect());
+        for (i, kn) in notif_keys.iter().enumerate() {
+            if !cands.iter().any(|c| !c.0 && c.2 == *kn) {
+                cands.push((false, i as u64, kn.clone()));
+            }
+        }
+        if cands.is_empty() {
+            return;
+        }
+        // choice 0 = stop running background work for now
+        let c = choice(cands.len() + 1);
+        if c == 0 {
+            return;
+        }
+        let (is_task, id, label) = cands[c - 1].clone();
+        if is_task {
+            env::set_task_label(&label);
+            env::run_task(id);
+            env::set_task_label("");
+        } else {
+            let cmd = w.cmd_rx.take_at(id as usize).expect("notification");
+            env::set_task_label(&label);
+            w.dispatch(cmd);
+            env::set_task_label("");
+        }
+    }
+}
+
+/// is there a pending task or notification labelled with this key (a write not yet acknowledged)?
+fn pending_work_for(w: &World, kn: &str) -> bool {
+    env::pending_tasks().iter().any(|(_, l)| l == kn) || w.cmd_rx.with_queue(|q| q.iter().any(|c| cmd_key_name(c) == kn))
+}
+
+fn cmd_key_name(c: &LocalSwarmCmd) -> String {
+    match c {
+        LocalSwarmCmd::AddLocalRecordAsStored { key, .. } => key_name(key),
+        LocalSwarmCmd::RemoveFailedLocalRecord { key } => key_name(key),
+        LocalSwarmCmd::PutLocalRecord { record } => key_name(&record.key),
+        _ => String::new(),
+    }
+}
+
+/// settle: everything pending runs; different keys in an arbitrary order is covered by
+/// run_some_background before; here FIFO per label, labels in creation order
+fn settle_labelled(w: &mut World) {
+    loop {
+        let tasks = env::pending_tasks();
+        if let Some((id, label)) = tasks.first().cloned() {
+            env::set_task_label(&label);
+            env::run_task(id);
+            env::set_task_label("");
+            continue;
+        }
+        let first = w.cmd_rx.with_queue(|q| q.front().map(cmd_key_name));
+        match first {
+            Some(label) => {
+                let cmd = w.cmd_rx.try_recv().unwrap();
+                env::set_task_label(&label);
+                w.dispatch(cmd);
+                env::set_task_label("");
+            }
+            None => break,
+        }
+    }
+}
+
+// ------------------------------------------------------------------ C01
+
+fn c01_history() {
+    let n_keys = env_usize("C01_KEYS", 2);
+    let n_ops = env_usize("C01_OPS", 3);
+    let cache = 1 + choice(2);
+    pin_hashes(n_keys);
+    crate::shim::set_clock_frozen(false); // cache timestamps: every now() may be a later instant (or the same)
+    let mut w = World::new(100, cache);
+    settle_labelled(&mut w);
+    let mut g = Ghost { accepted: vec![vec![]; n_keys], last: vec![Last::Never; n_keys], remove_raced_write: vec![false; n_keys], unacked_writes: vec![0; n_keys] };
+    note(format!("cache_size={cache}"));
+    for i in 0..n_ops {
+        history_step(&mut w, &mut g, n_keys, &format!("op{i}:"));
+        run_some_background(&mut w, 3);
+    }
+    settle_labelled(&mut w);
+    cover("settled");
+    for ki in 0..n_keys {
+        let k = key(ki as u8);
+        let got = w.driver.store().get(&k).map(|c| c.into_owned().value);
+        let held = w.driver.store().contains(&k);
+        let listed = w.driver.store().record_addresses().keys().any(|a| a.to_record_key() == k);
+        match &g.last[ki] {
+            Last::Value(v) => {
+                cover("settled_value");
+                check_bool("settled:last_accepted_write_is_readable_exactly", got.as_ref() == Some(v));
+                check_bool("settled:accepted_key_is_held", held && listed);
+            }
+            Last::Removed => {
+                cover("settled_removed");
+                check_bool("settled:removed_key_not_readable", got.is_none());
+                if g.remove_raced_write[ki] {
+                    check_bool("settled:removed_key_not_listed[remove_issued_while_write_unacknowledged]", !held && !listed);
+                } else {
+                    check_bool("settled:removed_key_not_listed", !held && !listed);
+                }
+                check_bool("settled:removed_key_has_no_file", !env::fs::exists(file_of(&k)));
+            }
+            Last::Never => {
+                check_bool("settled:never_written_key_not_readable", got.is_none() && !held);
+            }
+        }
+    }
+}
+
+// ------------------------------------------------------------------ C02
+
+fn c02_crash() {
+    let n_keys = env_usize("C02_KEYS", 2);
+    let n_ops = env_usize("C02_OPS", 2);
+    let mut w = World::new(100, 2);
+    settle_labelled(&mut w);
+    let mut g = Ghost { accepted: vec![vec![]; n_keys], last: vec![Last::Never; n_keys], remove_raced_write: vec![false; n_keys], unacked_writes: vec![0; n_keys] };
+    // ghost of what is durably on disk per key: Some(bytes) once a write task completed, None once a delete completed
+    let mut durable: Vec<Last> = vec![Last::Never; n_keys];
+    let mut ops: Vec<(usize, Last)> = vec![]; // issue order of (key, intended effect)
+    for i in 0..n_ops {
+        let op = choice(2);
+        let ki = choice(n_keys);
+        let k = key(ki as u8);
+        env::set_task_label(&format!("{}#{}", key_name(&k), ops.len()));
+        if op == 0 {
+            let variant = choice(2);
+            let r = the_record(ki, variant, ki == 1);
+            let val = r.value.clone();
+            let res = w.driver.arm_put_local_record(r);
+            note(format!("op{i}: put {} v{variant} -> {}", key_name(&k), if res.is_ok() { "ok" } else { "err" }));
+            if res.is_ok() {
+                g.accepted[ki].push(val.clone());
+                // an identical re-put is answered from the cache without a new write
+                ops.push((ki, Last::Value(val)));
+            }
+        } else {
+            note(format!("op{i}: remove {}", key_name(&k)));
+            w.driver.store().remove(&k);
+            ops.push((ki, Last::Removed));
+        }
+        env::set_task_label("");
+        // some of the background work may complete before the next operation (FIFO per key)
+        run_background_tracking(&mut w, &ops, &mut durable, 2);
+    }
+    run_background_tracking(&mut w, &ops, &mut durable, 4);
+    // crash: optionally one of the still-pending write tasks is torn at an arbitrary prefix
+    let tasks = env::pending_tasks();
+    let mut torn_key: Option<usize> = None;
+    let first_per_key: Vec<(u64, String)> = {
+        let mut seen: Vec<String> = vec![];
+        let mut v = vec![];
+        for (id, label) in tasks.iter() {
+            let kn = label.split('#').next().unwrap_or("").to_string();
+            if kn.is_empty() || seen.contains(&kn) {
+                continue;
+            }
+            seen.push(kn);
+            v.push((*id, label.clone()));
+        }
+        v
+    };
+    if !first_per_key.is_empty() && choice(2) == 1 {
+        let (id, label) = first_per_key[choice(first_per_key.len())].clone();
+        let opi: usize = label.split('#').nth(1).and_then(|s| s.parse().ok()).unwrap_or(usize::MAX);
+        if opi < ops.len() {
+            if let (ki, Last::Value(_)) = &ops[opi] {
+                let path = file_of(&key(*ki as u8));
+                let before = env::fs::read(&path).ok();
+                env::run_task(id);
+                if let Ok(full) = env::fs::read(&path) {
+                    if before.as_ref() != Some(&full) && !full.is_empty() {
+                        let p = choice(full.len()); // 0 .. len-1 bytes reached the disk
+                        env::fs::write(&path, &full[..p]).unwrap();
+                        note(format!("crash tears the write of {} at {p}/{} bytes", key_name(&key(*ki as u8)), full.len()));
+                        cover("torn_write");
+                        torn_key = Some(*ki);
+                    }
+                }
+            }
+        }
+    }
+    let files = env::fs::snapshot();
+    drop(w);
+    env::reset_tasks();
+    env::fs::restore(files);
+    // restart with the same identity (same encryption seed)
+    let mut w2 = World::new(100, 2);
+    settle_labelled(&mut w2);
+    cover("restarted");
+    for ki in 0..n_keys {
+        let k = key(ki as u8);
+        let got = w2.driver.store().get(&k).map(|c| c.into_owned().value);
+        if let Some(v) = &got {
+            cover("served_after_restart");
+            check_bool("restart:serves_only_previously_validated_bytes", g.accepted[ki].contains(v));
+        }
+        if torn_key == Some(ki) {
+            continue; // the torn file's key may legitimately be gone
+        }
+        match &durable[ki] {
+            Last::Value(v) => {
+                cover("durable_value");
+                check_bool("restart:completed_write_is_served", got.as_ref() == Some(v));
+            }
+            Last::Removed => {
+                cover("durable_removed");
+                check_bool("restart:completed_removal_stays_removed", got.is_none());
+            }
+            Last::Never => {}
+        }
+    }
+    let store2 = w2.driver.node_store();
+    check_views_agree(store2, "restart");
+    // every indexed key must have an authenticating file
+    for k in store2.records.keys() {
+        check_bool("restart:indexed_key_is_readable", NodeRecordStore::read_from_disk(&store2.encryption_details, k, &store2.config.storage_dir).is_some());
+    }
+}
+
+/// like run_some_background, additionally tracking which file effects completed (durable state per key)
+fn run_background_tracking(w: &mut World, ops: &[(usize, Last)], durable: &mut Vec<Last>, max_steps: usize) {
+    for _ in 0..max_steps {
+        let tasks = env::pending_tasks();
+        let mut cands: Vec<(u64, String)> = vec![];
+        for (id, label) in &tasks {
+            let kn = label.split('#').next().unwrap_or("").to_string();
+            if kn.is_empty() {
+                continue;
+            }
+            if !cands.iter().any(|c| c.1.split('#').next().unwrap_or("") == kn) {
+                cands.push((*id, label.clone()));
+            }
+        }
+        if cands.is_empty() {
+            return;
+        }
+        let c = choice(cands.len() + 1);
+        if c == 0 {
+            return;
+        }
+        let (id, label) = cands[c - 1].clone();
+        let opi: usize = label.split('#').nth(1).and_then(|s| s.parse().ok()).unwrap_or(usize::MAX);
+        let ki_opt = ops.get(opi).map(|o| o.0);
+        let before = ki_opt.map(|ki| env::fs::read(file_of(&key(ki as u8))).ok());
+        env::set_task_label(&label);
+        env::run_task(id);
+        env::set_task_label("");
+        if let (Some(ki), Some(before)) = (ki_opt, before) {
+            let after = env::fs::read(file_of(&key(ki as u8))).ok();
+            if after != before {
+                match (&ops[opi].1, &after) {
+                    (Last::Value(v), Some(_)) => durable[ki] = Last::Value(v.clone()),
+                    (Last::Removed, None) => durable[ki] = Last::Removed,
+                    // a delete task of an earlier remove deleting a later write's file, or similar:
+                    // record what is now on disk as unknown
+                    (_, None) => durable[ki] = Last::Removed,
+                    (_, Some(_)) => durable[ki] = Last::Never,
+                }
+            }
+        }
+        // notifications are in-memory only; deliver them eagerly (they do not survive the crash anyway)
+        while let Some(cmd) = w.cmd_rx.try_recv() {
+            w.dispatch(cmd);
+        }
     }
 }
